@@ -43,6 +43,7 @@ CFG = """CONSTANTS
     OnlyInvolutive = {invol}
     DistAll = {distall}
     Dists = {dists}
+    SessMemo = FALSE
     LinMode = "doc"
     EmitOn = TRUE
 INIT Init
@@ -55,6 +56,7 @@ INVARIANT ThZero
 INVARIANT ThInvol
 INVARIANT ThParam
 INVARIANT ThScale
+INVARIANT ThSess
 INVARIANT ThSafe
 INVARIANT Emit
 CHECK_DEADLOCK FALSE
@@ -193,6 +195,40 @@ def observe(scn: dict) -> dict:
         except Exception as ex:  # noqa: BLE001
             steps.append({"error": f"{type(ex).__name__}: {str(ex)[:200]}"})
         obs["hist"].append(steps)
+    # pool sizes and fluxes as parameters of the built model: build, evaluate, update, evaluate, ...
+    obs["pool_hist"] = []
+    try:
+        m = None
+        for st in scn.get("pool_hist", []):
+            if m is None:
+                m = mapper.build_model(concs=pd.Series(pool, dtype=float), fluxes=pd.Series(flux, dtype=float),
+                                       external_label=float(lk.frac(st["x"])))
+            else:
+                m.update_parameters({k: float(v) * int(st["mul_pool"]) for k, v in pool.items()}
+                                    | {k: float(v) * int(st["mul_flux"]) for k, v in flux.items()})
+            e = {k: float(lk.frac(v)) for k, v in fn_to_dict(st["e"]).items()}
+            obs["pool_hist"].append({"de": {k: float(v) for k, v in m.get_right_hand_side(e).to_dict().items()}})
+    except Exception as ex:  # noqa: BLE001
+        obs["pool_hist"].append({"error": f"{type(ex).__name__}: {str(ex)[:200]}"})
+    # a session on the SAME mapper: the base model's reactions are rewritten (compounds of every side in the opposite
+    # order), then build_model again (this edits `base`: it must stay the last thing done with it)
+    obs["sess"] = []
+    for ss in scn.get("sess", []):
+        try:
+            b2 = lk.norm_b(ss["b2"])
+            for r2 in b2["rxns"]:
+                base.update_reaction(r2["name"], stoichiometry=lk.stoichiometry(r2, None))
+            m2 = mapper.build_model(concs=pd.Series(pool, dtype=float), fluxes=pd.Series(flux, dtype=float),
+                                    external_label=float(lk.frac(ss["x"])))
+            e = {k: float(lk.frac(v)) for k, v in fn_to_dict(ss["e"]).items()}
+            o = {"de": {k: float(v) for k, v in m2.get_right_hand_side(e).to_dict().items()}}
+            iso2 = LabelMapper(base, label_variables=lv, label_maps=lmaps).build_model()
+            y = {k: float(v) for k, v in fn_to_dict(scn["y"]).items()}
+            dy2 = {k: float(v) for k, v in iso2.get_right_hand_side(y).to_dict().items()}
+            o["iso"] = position_rates_from_isotopomer_model(b2, dy2, pool)
+            obs["sess"].append(o)
+        except Exception as ex:  # noqa: BLE001
+            obs["sess"].append({"error": f"{type(ex).__name__}: {str(ex)[:200]}"})
     return obs
 
 
@@ -230,6 +266,29 @@ def judge(scn: dict, obs: dict) -> dict | None:
                 return {"what": f"linear model: pools and fluxes scaled by 2^-{ev['unit']} (pools below 1e-6)", "position": n,
                         "x": str(lk.frac(ev["x"])), "expected": str(v), "observed": o["de"][n],
                         "pools": {k: float(p) * 2.0 ** -int(ev["unit"]) for k, p in fn_to_dict(scn["pool"]).items()}}
+    # (b2) pools / fluxes updated on the built model
+    for j, (st, o) in enumerate(zip(scn.get("pool_hist", []), obs.get("pool_hist", []))):
+        if "error" in o:
+            return {"what": "build/update refused: pool history", "observed": o["error"], "step": j + 1}
+        exp = {k: lk.frac(v) for k, v in fn_to_dict(st["de"]).items()}
+        for n, v in exp.items():
+            if n not in o["de"] or not _close(v, o["de"][n]):
+                return {"what": f"linear model: after update_parameters (pools x{st['mul_pool']}, fluxes x{st['mul_flux']}) on the "
+                                f"built model, step {j + 1} of build / evaluate / update / evaluate", "position": n,
+                        "expected": str(v), "observed": o["de"].get(n)}
+    # (b3) second build on the same mapper after the base model's reactions were edited
+    for ss, o in zip(scn.get("sess", []), obs.get("sess", [])):
+        if "error" in o:
+            return {"what": "build refused: second build on the same mapper after editing the base model", "observed": o["error"]}
+        for n, v in fn_to_dict(ss["iso"]).items():
+            if n not in o["iso"] or not _close(lk.frac(v), o["iso"][n]):
+                return {"what": "isotopomer model of the edited base model: positional enrichment rate", "position": n,
+                        "expected": str(lk.frac(v)), "observed": o["iso"].get(n)}
+        for n, v in fn_to_dict(ss["de"]).items():
+            if n not in o["de"] or not _close(lk.frac(v), o["de"][n]):
+                return {"what": "linear model: second build on the same mapper after the base model's reactions were rewritten",
+                        "position": n, "expected": str(lk.frac(v)), "observed": o["de"].get(n),
+                        "isotopomer_model_of_edited_base_says": o["iso"].get(n)}
     # (c) the linear model after the external enrichment was changed on the built model
     for h, steps in zip(scn.get("hist", []), obs["hist"]):
         trail = [str(lk.frac(h["x0"]))]
@@ -443,9 +502,9 @@ def tlc_families(ctx: Ctx, rep: Report, fams: list[dict]) -> list[dict]:
         sim, depth = f.pop("simulate", None), f.pop("depth", None)
         cfg = ctx.write_cfg(f"{name}.cfg", cfg_text(**f))
         extra = {"simulate": sim, "depth": depth or 80, "seed": ctx.seed} if sim else {}
-        return name, what, ctx.tlc("LinearLabelMC.tla", str(cfg), tag=name, workers=f.get("workers", 5), jvm=["-Xmx4g"], **extra)
+        return name, what, ctx.tlc("LinearLabelMC.tla", str(cfg), tag=name, workers=f.get("workers", 2), jvm=["-Xmx4g"], **extra)
 
-    with ThreadPoolExecutor(max_workers=min(5, len(fams))) as ex:      # (each JVM is capped at 4 GB: several run side by side)
+    with ThreadPoolExecutor(max_workers=min(4, len(fams))) as ex:      # (4 JVMs x 2 workers, each capped at 4 GB)
         results = list(ex.map(one, fams))
     out = []
     for name, what, res in results:
@@ -469,10 +528,15 @@ def run(ctx: Ctx) -> int:
         "for EXT < 1 the linear model is compared with the specification's linear definition, which TLC proves "
         "equal to the isotopomer-derived rate at EXT = 1",
     ]
-    pinned = ctx.tlc("LinearLabelMC.tla", "LinearLabel_pinned.cfg", expect_violation=True)
+    pinned = ctx.tlc("LinearLabelMC.tla", "LinearLabel_pinned.cfg", expect_violation=True, workers=4)
     if pinned.violated != "ThLinIsIso":
         raise MachineryError("LinMode=\"pinned\" (map read substrate -> product) should violate ThLinIsIso; "
                              f"TLC said {pinned.violated!r}: the specification has lost its teeth")
+    smemo = ctx.tlc("LinearLabelMC.tla", "LinearLabel_sessmemo.cfg", expect_violation=True, workers=4)
+    if smemo.violated != "ThSess":
+        raise MachineryError("SessMemo=TRUE (reactions of the base model remembered from the first build) should violate ThSess; "
+                             f"TLC said {smemo.violated!r}")
+    rep.notes["session_memo_counterexample"] = "TLC: ThSess violated for SessMemo=TRUE (build, edit base model, build on the same mapper)"
     rep.notes["pinned_shape_counterexample"] = "TLC: ThLinIsIso violated for LinMode=pinned (substrate -> product reading)"
     # Focus: influx / efflux reactions take 3 maps (identity, reversal, constant 0) instead of all, otherwise the
     # maps of a network's reactions multiply; the "free" family lifts that restriction on the small networks
@@ -480,14 +544,14 @@ def run(ctx: Ctx) -> int:
         fams = [
             dict(name="perm3", what="exhaustive: 0->A->B->0, label counts 1..3, all maps of A->B (27 for 3 positions, 3-cycles)",
                  tpls=["chain"], maxnl=3, maxl=3),
-            dict(name="nl2", what="exhaustive: A<->B, A+B->C, A->B+C, 2A->B networks, label counts 1..2, all maps max(S,P)<=3",
-                 tpls=["cycle", "bi", "split", "homo"], maxnl=2, maxl=3),
+            dict(name="nl2", what="exhaustive: A<->B, A+B->C, A->B+C networks, label counts 1..2, all maps max(S,P)<=3",
+                 tpls=["cycle", "bi", "split"], maxnl=2, maxl=3),
             dict(name="free", what="exhaustive: chain, label counts 1..2, every map of every reaction (also influx/efflux)",
                  tpls=["chain"], maxnl=2, maxl=2, focus=False),
-            dict(name="invol", what="exhaustive: all networks, counts 1..3, involutive maps only, max(S,P)<=3",
-                 tpls=ALL_TPLS, maxnl=3, maxl=3, invol=True),
+            dict(name="invol", what="exhaustive: all networks, counts 1..2, involutive maps only, max(S,P)<=3",
+                 tpls=ALL_TPLS, maxnl=2, maxl=3, invol=True),
             dict(name="deep", what="seeded simulation: all networks, counts 1..3, all maps max(S,P)<=6, independent distributions",
-                 tpls=ALL_TPLS, maxnl=3, maxl=6, distall=True, focus=False, simulate="num=20", depth=80),
+                 tpls=ALL_TPLS, maxnl=3, maxl=6, distall=True, focus=False, simulate="num=50", depth=80),
             # a compound with coefficient 2 AND >= 2 positions (unit-major vs position-major expansion of a reaction
             # side), judged without the known finding: involutive maps only, positions of a compound enriched differently
             dict(name="doubled", what="exhaustive: 2A->B and A->2B networks, label counts 1..2 (doubled compound with 2 positions), "
@@ -551,11 +615,14 @@ def run(ctx: Ctx) -> int:
     n_three = sum(1 for s in scns if s["involutive"] and s["tpl"] in THREE_TPLS)
     if n_three < 100:
         raise MachineryError(f"only {n_three} involutive cases with three units on one side of a reaction")
+    n_sess = sum(1 for s in scns if s["involutive"] and s.get("sess"))
+    if n_sess < 100:
+        raise MachineryError(f"only {n_sess} involutive cases with a build / edit base model / build session")
     n_ord = sum(1 for s in scns if s["involutive"] and s.get("ord") in ("swap", "swaprev") and s["tpl"] in ("bi", "split"))
     if n_ord < 100:
         raise MachineryError(f"only {n_ord} involutive merge/split cases whose compounds are written against the declaration order")
     rep.notes["cases"] = {"total": len(scns), "all_maps_involutive": n_inv, "doubled_multi_position_involutive": n_dbl,
-                          "merge_split_against_declaration_order_involutive": n_ord, "three_units_on_a_side_involutive": n_three,
+                          "merge_split_against_declaration_order_involutive": n_ord, "three_units_on_a_side_involutive": n_three, "base_edit_sessions_involutive": n_sess,
                           "by_template": {t: sum(1 for s in scns if s["tpl"] == t) for t in ALL_TPLS + ["dimer"] + THREE_TPLS}}
     # ---- binding self-test: one corrupted expected value must be noticed by the comparison ---------------------
     probe = next(s for s in scns if s["involutive"] and s["tpl"] == "bi")
@@ -570,7 +637,7 @@ def run(ctx: Ctx) -> int:
                 raise MachineryError(f"a corrupted expected value (evaluation {which}) was not noticed by the replay comparison")
     rep.notes["binding_selftest"] = "corrupting one expected rate (isotopomer-derived / linear / uniform) of a replayed case is " \
                                     "detected; a corrupted recorded right-hand side is rejected by TLC (oracle)"
-    results = pmap(_work, scns, chunk=16)
+    results = pmap(_work, scns, procs=8, chunk=16)
     agree_inv = 0
     for scn, (bad, cross) in zip(scns, results):
         if cross is not None:
@@ -582,7 +649,7 @@ def run(ctx: Ctx) -> int:
         if bad is None:
             agree_inv += 1 if scn["involutive"] else 0
         else:
-            slim = {k: scn[k] for k in ("tpl", "ord", "b", "dk", "pool", "flux", "y", "involutive", "evals", "hist", "unit_evals")}
+            slim = {k: scn[k] for k in ("tpl", "ord", "b", "dk", "pool", "flux", "y", "involutive", "evals", "hist", "unit_evals", "pool_hist", "sess")}
             rep.mismatch(slim, bad, classify(scn, bad))
     rep.notes["involutive_cases_conforming"] = agree_inv
     for s in [x for x in scns if x["involutive"] and nontrivial(x)][:: max(1, n_inv // 3)][:3]:
@@ -592,7 +659,7 @@ def run(ctx: Ctx) -> int:
     cases = [doc_example_case()]
     rnd = random.Random(ctx.seed)
     n_rand = 250 if ctx.quick else 3000
-    cases += pmap(random_case, [(rnd.randrange(1 << 30), f"rand-{j}") for j in range(n_rand)], chunk=16)
+    cases += pmap(random_case, [(rnd.randrange(1 << 30), f"rand-{j}") for j in range(n_rand)], procs=8, chunk=16)
     bent = json.loads(json.dumps(cases[0]))
     bent["id"] = "selftest-corrupted-observation"
     if bent["evals"][1]["de"]:
